@@ -40,7 +40,8 @@ ASSUMPTIONS = [
 ]
 PROBES = ["cache_hit_row", "fmt_only_change", "full_width_row", "shorter_after_longer", "fewer_rows_after_more",
           "render_after_resize", "render_onto_junk", "mid_render_resize", "over_wide_row", "over_tall_array",
-          "hide_cursor_false", "fsarray", "empty_array", "identical_rerender", "el_in_pending_wrap"]
+          "hide_cursor_false", "fsarray", "empty_array", "identical_rerender", "el_in_pending_wrap",
+          "same_object_rendered_again"]
 TRIGGERS = {}
 
 
@@ -98,7 +99,8 @@ def _gen_render(rng, h, w, prev, oversize):
     cursor = [rng.randrange(h), rng.randrange(w)]
     if rng.random() < 0.2:
         cursor = [h - 1, w - 1]
-    return {"op": "render", "rows": rows, "cursor": cursor, "fsarray": rng.random() < 0.3}
+    return {"op": "render", "rows": rows, "cursor": cursor, "fsarray": rng.random() < 0.3,
+            "reuse_object": rng.random() < 0.3}
 
 
 def gen_plan(seed, tier, index=0, avoid=()):
@@ -194,6 +196,10 @@ def _simp_rows(p):
         if st.get("fsarray"):
             q = planmod.clone(p)
             q["steps"][i]["fsarray"] = False
+            yield q
+        if st.get("reuse_object"):
+            q = planmod.clone(p)
+            q["steps"][i]["reuse_object"] = False
             yield q
         if st["cursor"] != [0, 0]:
             q = planmod.clone(p)
@@ -293,6 +299,7 @@ def _execute(p, world, term, out, res):
         world.probe("hide_cursor_false")
     prev = None
     after_resize = False
+    last_arr = None
     with win:
         alt_scrolls0 = term.scrolls["alt"]
         for si, st in enumerate(p["steps"]):
@@ -305,7 +312,10 @@ def _execute(p, world, term, out, res):
                 continue
             h, w = term.h, term.w
             rows = st["rows"]
-            arr = gen.build_array(rows, st.get("fsarray"), w)
+            arr = gen.build_array(rows, st.get("fsarray"), w, last_arr if st.get("reuse_object") else None)
+            if arr is last_arr:
+                world.probe("same_object_rendered_again")
+            last_arr = arr
             if st.get("fsarray"):
                 world.probe("fsarray")
             mid = st.get("mid")
